@@ -54,7 +54,7 @@ CLAIMED = {
  "C08": dict(level="other",
    text="Deductive through the grammar layer for the five positional layouts and the Swedish OBIS list, bare and framed, all register values symbolic: positional field mapping, currents == register/1000, voltages == register/10, others unchanged, text verbatim, clock rule. "
         "The float lemma round(v*10**-k, k) == v/10**k (all 32-bit v) is assumed in the VCs and decided by a sweep on CPython floats - strided in quick, all 2^32 in thorough; hence 'other'.",
-   note="Assumed: construct parse rules, datetime model; float lemma by exhaustive enumeration (thorough).", technique=DED + " via the grammar layer; exhaustive float sweep for the rounding lemma", design="DESIGN.md section 9 C08"),
+   note="Known finding (open): identification strings ending in NUL lose those characters and 12 control characters that encode a date-time decode as a datetime (printable strings: proved verbatim). Assumed: construct parse rules, datetime model; float lemma by exhaustive enumeration (thorough).", technique=DED + " via the grammar layer; exhaustive float sweep for the rounding lemma", design="DESIGN.md section 9 C08, 14.3"),
  "C09": dict(level="other",
    text="Deductive through the grammar layer for the Kamstrup 10-second and hourly lists (one/three phase), with null-data padding (after some and after every element), direct and CT (685...) meter types for both kinds of list, bare and framed (the Swedish list has the element set of the 10-second three-phase list): currents == register/100 resp. /1000, energies == register x 10, others unchanged, text verbatim, APDU clock. Float lemma by sweep; hence 'other'.",
    note="Assumed: construct parse rules, datetime model; float lemma by exhaustive enumeration (thorough).", technique=DED + " via the grammar layer; exhaustive float sweep for the rounding lemma", design="DESIGN.md section 9 C09"),
